@@ -65,7 +65,7 @@ MANIFEST = dict(
 
 POOL = 48
 BEING_DELETED = __import__('re').compile(r'being delete', __import__('re').I)
-BARRIER_TIMEOUT = 60
+BARRIER_TIMEOUT = 240  # generous: on the shared build machine the whole server process was seen frozen for minutes
 COMPACT_TIMEOUT = 420
 QUIET_BEFORE_KILL = 4.0
 PAD = 5000  # > duration of the longest run in seconds
@@ -76,13 +76,13 @@ class Server(blackbox.Server):
     request that times out on an overloaded machine is repeated; a server that really hangs still ends as tool error."""
     timeouts = 0
 
-    def request(self, method, path, params=None, body=None, headers=None, auth="default", timeout=90):
-        for attempt in range(3):
+    def request(self, method, path, params=None, body=None, headers=None, auth="default", timeout=120):
+        for attempt in range(5):
             try:
                 return blackbox.Server.request(self, method, path, params=params, body=body, headers=headers, auth=auth,
                                                timeout=timeout)
             except blackbox.ToolError as e:
-                if "timed out" in str(e) and self.alive() and attempt < 2:
+                if "timed out" in str(e) and self.alive() and attempt < 4:
                     Server.timeouts += 1
                     continue
                 raise
@@ -704,7 +704,9 @@ def run(tier, replay):
             print("replay: %s" % ("still fails" if rep.d["n_violations"] else "passes"))
             return 1 if rep.d["n_violations"] else 0
         hs = M.enumerate_histories(tier)
-        rep.d["samples"] = [dict(h, tokens=M.tokens(h)) for h in hs[:: max(1, len(hs) // 10)] if not h.get("special")][:10]
+        drv0 = Driver(tier, None, [], rep)
+        rep.d["samples"] = [dict(h, key=M.hkey(h), database=M.dbname(h), measurement=M.mname(h), drop_statement=drv0.drop_sql(Run(h)),
+                                 tokens=M.tokens(h)) for h in hs[:: max(1, len(hs) // 10)] if not h.get("special")][:10]
         groups = {}
         for h in hs:
             groups.setdefault(h["srv"], []).append(h)
